@@ -368,16 +368,57 @@ def run(rep, ctx):
     nm_reached = list(reach_calls(F, so, lambda c_: c_["k"] == "CXXMemberCallExpr" and (c_.get("callee") or "") == "mp::NameProvider::name", depth=1))
     nmc = [c_ for a_, c_, r_, o_ in nm_reached]
     name_arg = render(nm_reached[0][2](call_args(nmc[0])[0])).replace(" ", "") if len(nm_reached) == 1 else "?"
-    gen_ix = False
-    for a_, c_, r_, o_ in nm_reached[:1]:
-        gen_ix = any(n_["k"] == "BinaryOperator" and render(r_(n_)).replace(" ", "") == "io-num_c+1" for n_ in o_.walk())
+    def aff_(g_, n_, res_=lambda e: e):
+        """integer-affine normal form {symbol: coefficient, "": constant} of an index expression (locals that merely name an
+        expression looked through), or None"""
+        n_ = strip(expand_locals(g_, res_(n_), 0, False))
+        while n_ is not None and n_["k"] in ("CStyleCastExpr", "CXXStaticCastExpr", "CXXFunctionalCastExpr", "ParenExpr") and kids(n_):
+            n_ = strip(kids(n_)[0])
+        if n_ is None:
+            return None
+        if cv(n_) is not None and n_["k"] != "DeclRefExpr":
+            return {"": int(cv(n_))}
+        if n_["k"] == "BinaryOperator" and n_.get("op") in ("+", "-"):
+            a, b = aff_(g_, kids(n_)[0]), aff_(g_, kids(n_)[1])
+            if a is None or b is None:
+                return None
+            out = dict(a)
+            for k_, v_ in b.items():
+                out[k_] = out.get(k_, 0) + (v_ if n_["op"] == "+" else -v_)
+            return {k_: v_ for k_, v_ in out.items() if v_ != 0}
+        return {render(n_).replace(" ", "").replace("this->", ""): 1}
+
+    def aff_sub(a, b):
+        out = dict(a)
+        for k_, v_ in b.items():
+            out[k_] = out.get(k_, 0) - v_
+        return {k_: v_ for k_, v_ in out.items() if v_ != 0}
     # the loop over the objectives: io from num_c+o1 up to num_c+o2 (for or while form, bounds possibly named)
     lps_ = [loop_shape(so, n) for n in so.walk() if n["k"] in ("ForStmt", "WhileStmt")]
     lps_ = [x for x in lps_ if x is not None]
-    lp_ok = False
-    if len(lps_) == 1 and lps_[0]["dir"] == "up" and lps_[0]["rel"] == "<" and lps_[0]["start"] not in (None, "continues"):
-        lp_ok = "num_c+o1" in (render(lps_[0]["start"]).replace(" ", ""), xrender(so, lps_[0]["start"]).replace(" ", "")) and xrender(so, lps_[0]["bound"]).replace(" ", "") == "num_c+o2" and lps_[0]["name"] == "io"
-    okl = len(rowreq) == 1 and rowreq[0] == nctxt + "+num_objs()" and lp_ok and len(nmc) == 1 and name_arg == "io" and gen_ix
+    # with k = o1 + (v - start) the objective handled by the iteration of loop variable v:  the loop makes o2 - o1 iterations,
+    # the name is looked up at row position num_c + k, and the generated name carries k + 1 (compared as affine forms, so
+    # `io` from num_c+o1 and `i_obj` from o1 with `const io = num_c+i_obj` are the same loop)
+    lp_ok = gen_ix = name_ok = False
+    if len(lps_) == 1 and lps_[0]["dir"] == "up" and lps_[0]["rel"] == "<" and lps_[0]["start"] not in (None, "continues") and len(nm_reached) == 1:
+        a_, c_, r_, o_ = nm_reached[0]
+        S_, B_ = aff_(so, lps_[0]["start"]), aff_(so, lps_[0]["bound"])
+        A_ = aff_(o_, call_args(c_)[0], r_)
+        v_ = lps_[0]["name"]
+        if S_ is not None and B_ is not None and A_ is not None:
+            k_ = aff_sub({"o1": 1, v_: 1}, S_)                       # k = o1 + v - start
+            lp_ok = aff_sub(B_, S_) == {"o2": 1, "o1": -1}
+            want_name = dict(k_)
+            want_name["num_c"] = want_name.get("num_c", 0) + 1
+            want_name = {x: y for x, y in want_name.items() if y != 0}
+            name_ok = A_ == want_name
+            want_gen = dict(k_)
+            want_gen[""] = want_gen.get("", 0) + 1
+            want_gen = {x: y for x, y in want_gen.items() if y != 0}
+            for n_ in o_.walk():
+                if n_["k"] == "CallExpr" and (n_.get("callee") or "").endswith("to_string") and call_args(n_):
+                    gen_ix = aff_(o_, call_args(n_)[0], r_) == want_gen
+    okl = len(rowreq) == 1 and rowreq[0] == nctxt + "+num_objs()" and lp_ok and len(nmc) == 1 and name_ok and gen_ix
     scn = calls(rn, name="get_names")
     sct = sorted(render(c).replace(" ", "").replace("GetModel().", "") for c in scn)
     okl = okl and any("get_names(num_cons(),num_algebraic_cons())" in t_ for t_ in sct)
